@@ -443,8 +443,12 @@ func (u *upstream) doSlotsRefresh() error {
 	}
 	u.MakeRequestToHost(addr, req)
 
-	// wait done
-	req.Wait()
+	// wait done, but not longer than the upstream lives
+	select {
+	case <-req.done:
+	case <-u.quit:
+		return errors.New(upstreamExited)
+	}
 	resp := req.Response()
 	if resp.Type == Error {
 		return errors.New(string(resp.Text))
